@@ -3,10 +3,8 @@ from .common import *
 from ..kernels import *
 
 LEVEL = 'other'
-ALLOWED_1D = {'interp1d::Interp1D::is_in_range', 'interp1d::Interp1D::get_index_left_of', 'interp1d::Interp1D::index_point',
-              'interp1d::strategies::linear::Linear::calc_frac'}
-ALLOWED_2D = {'interp2d::Interp2D::is_in_x_range', 'interp2d::Interp2D::is_in_y_range', 'interp2d::Interp2D::get_index_left_of',
-              'interp2d::Interp2D::index_point', 'interp1d::strategies::linear::Linear::calc_frac'}
+ALLOWED_1D = {'Interp1D::is_in_range', 'Interp1D::get_index_left_of', 'Interp1D::index_point'}
+ALLOWED_2D = {'Interp2D::is_in_x_range', 'Interp2D::is_in_y_range', 'Interp2D::get_index_left_of', 'Interp2D::index_point'}
 
 
 def run(chk):
@@ -78,7 +76,7 @@ def run(chk):
                     continue
                 takes_interp = any(('Interp1D<' in a.get('ty', '') or 'Interp2D<' in a.get('ty', '')) for a in x.get('args', []))
                 hb = lib.body(nm)
-                if hb is not None and not nm.startswith(('interp1d::Interp1D::', 'interp2d::Interp2D::')):
+                if hb is not None and not nm.startswith(('Interp1D::', 'Interp2D::')):
                     work.append(hb)       # a private helper: analysed like the strategy body itself
                     continue
                 chk.ob('R20.2', "%s reaches the interpolator through %s, which is not one of the bracket accessors" % (path.split(' as ')[0], nm),
@@ -87,7 +85,7 @@ def run(chk):
                 if x.get('k') == 'Field' and ('Interp1D<' in x['e']['ty'] or 'Interp2D<' in x['e']['ty']):
                     chk.ob('R20.2', "%s reads field `%s` of the interpolator directly" % (strip_generics(cur['def']), x['name']), False, line_of(x),
                            'field-%s-%s' % (path.split(' as ')[0], x['name']))
-        chk.ob('R20.2', "%s (with its private helpers) uses the bracket accessors (found %d accessor calls)" % (path.split(' as ')[0], n_acc), n_acc >= 5, b['span'],
+        chk.ob('R20.2', "%s (with its private helpers) uses the bracket accessors (found %d accessor calls)" % (path.split(' as ')[0], n_acc), n_acc >= (4 if path == LIN else 7), b['span'],
                'callee-floor-' + path.split(' as ')[0])
     # the bracket index is a function of the ORDER of the axis values only: comparison skeleton of the lookup (shared with C11)
     from . import c11
